@@ -1573,6 +1573,55 @@ def _b_slice(eng, args, kwargs):
     return slice(*args)
 
 
+def _b_getattr(eng, args, kwargs):
+    """getattr(obj, name[, default]): the attribute lookup of the interpreter itself (instance field, then the class: methods, properties,
+    class-level defaults); with a default, an AttributeError raised by that lookup gives the default"""
+    if kwargs or not 2 <= len(args) <= 3:
+        raise ProgExc(TypeError, "getattr expected 2 or 3 positional arguments")
+    obj, name = args[0], args[1]
+    if not isinstance(name, str):
+        raise Unsupported("getattr with a non-constant attribute name")
+    try:
+        return eng.getattr_(obj, name)
+    except ProgExc as e:
+        if len(args) == 3 and isinstance(e.cls, type) and issubclass(e.cls, AttributeError):
+            return args[2]
+        raise
+
+
+def _b_hasattr(eng, args, kwargs):
+    """hasattr(obj, name): getattr(obj, name) does not raise AttributeError"""
+    if kwargs or len(args) != 2:
+        raise ProgExc(TypeError, "hasattr expected 2 positional arguments")
+    miss = object()
+    return _b_getattr(eng, [args[0], args[1], miss], {}) is not miss
+
+
+def _b_setattr(eng, args, kwargs):
+    """setattr(obj, name, value): the statement obj.name = value (property setters, frame obligations of frozen objects included)"""
+    if kwargs or len(args) != 3:
+        raise ProgExc(TypeError, "setattr expected 3 positional arguments")
+    if not isinstance(args[1], str):
+        raise Unsupported("setattr with a non-constant attribute name")
+    eng.setattr_(args[0], args[1], args[2])
+    return None
+
+
+def _b_delattr(eng, args, kwargs):
+    """delattr(obj, name) on an instance field (a frozen object: frame obligation, as for a store)"""
+    if kwargs or len(args) != 2 or not isinstance(args[1], str):
+        raise Unsupported("delattr arguments")
+    obj, name = args
+    if not isinstance(obj, Obj):
+        raise Unsupported(f"delattr on {type(obj).__name__}")
+    if name not in obj.fields:
+        raise ProgExc(AttributeError, name)
+    if getattr(obj, "frozen", False) and not eng.spec_mode:
+        eng.prove(eng.site("frame-attr-write"), False, "frame", f"deletion of field {name} of an input object")
+    del obj.fields[name]
+    return None
+
+
 import copy as _copy  # noqa: E402
 
 BUILTIN_MODELS = {
@@ -1586,6 +1635,7 @@ BUILTIN_MODELS = {
     itertools.product: _combinatoric(itertools.product), itertools.pairwise: _combinatoric(itertools.pairwise),
     itertools.combinations_with_replacement: _combinatoric(itertools.combinations_with_replacement),
     dict.fromkeys: _b_dict_fromkeys,
+    getattr: _b_getattr, hasattr: _b_hasattr, setattr: _b_setattr, delattr: _b_delattr,
 }
 try:
     import typing
